@@ -354,8 +354,9 @@ def class_key(cls) -> str:
 
 
 class TypeGen:
-    def __init__(self, rng):
+    def __init__(self, rng, user_leaves=False):
         self.rng = rng
+        self.user_leaves = user_leaves
         self.n_models = 0
         self.model_specs: dict[str, Spec] = {}
 
@@ -364,6 +365,11 @@ class TypeGen:
         tp = X.scalar_pool()[name]
         return Spec(hint=tp if tp is not type(None) else None, ty=["scalar", name], gen=SCALAR_GEN[name], kind="scalar:" + name,
                     hashable=name not in UNHASHABLE_SCALARS)
+
+    def user_leaf(self):
+        name = self.rng.choice(list(USER_LEAVES))
+        cls, _, g = USER_LEAVES[name]
+        return Spec(hint=cls, ty=["scalar", name], gen=g, kind="scalar:" + name, hashable=False, json_safe=False)
 
     def any(self):
         def g(r):
@@ -513,12 +519,17 @@ class TypeGen:
         self.n_models += 1
         name = f"M{self.n_models}"
         n = self.rng.randint(1, 4)
-        fields_, specs = [], []
+        specs = []
         for i in range(n):
             fs = self.gen(depth - 1)
             fname = self.rng.choice(["a", "b", "c", "d", "x", "value", "items", "data", "key", "id"]) + str(i)
             required = self.rng.random() < 0.6
             specs.append((fname, fs, required))
+        return self.model_of(name, specs)
+
+    def model_of(self, name, specs):
+        """dataclass model from (field name, spec, required) triples"""
+        fields_ = []
         # dataclass: fields without default first
         specs.sort(key=lambda t: not t[2])
         dflts = {}
@@ -546,6 +557,52 @@ class TypeGen:
         self.model_specs[name] = spec
         return spec
 
+    def wrap(self, kind, child):
+        """a container of the given kind around `child` (explicit, for targeted families)"""
+        int_s, str_s = self.scalar("int"), self.scalar("str")
+        if kind == "list":
+            return Spec(hint=list[child.hint], ty=["iter", "list", True, child.ty],
+                        gen=lambda r: [child.gen(r) for _ in range(r.choice([1, 2, 3]))], kind="iter:list", children=[child],
+                        hashable=False, json_safe=child.json_safe)
+        if kind == "tuple":
+            return Spec(hint=tuple[child.hint, int], ty=["tuple", [child.ty, int_s.ty]],
+                        gen=lambda r: (child.gen(r), int_s.gen(r)), kind="tuple", children=[child, int_s], hashable=False,
+                        json_safe=child.json_safe)
+        if kind == "dict":
+            return Spec(hint=dict[str, child.hint], ty=["dict", str_s.ty, child.ty],
+                        gen=lambda r: {str_s.gen(r): child.gen(r) for _ in range(r.choice([1, 2]))}, kind="dict",
+                        children=[str_s, child], hashable=False, json_safe=child.json_safe)
+        if kind == "model":
+            self.n_models += 1
+            return self.model_of(f"M{self.n_models}", [("a0", child, True), ("b1", int_s, False)])
+        return child
+
+    def unexpected_union(self):
+        """Union[W[U1|U2], W[U3]]: the first case can raise an unexpected (non-LoadError) exception on data the second
+        case accepts; every debug_trail mode must then fail"""
+        name = self.rng.choice(["user:U1", "user:U2"])
+        cls, _, g = USER_LEAVES[name]
+        flag = {"poison": False}
+        bad = {"user:U1": [U1(-5), U1(-1)], "user:U2": [U2("!boom"), U2("!")]}[name]
+
+        def leaf_gen(r):
+            return r.choice(bad) if flag["poison"] else g(r)
+        a = Spec(hint=cls, ty=["scalar", name], gen=leaf_gen, kind="scalar:" + name, hashable=False, json_safe=False)
+        b = Spec(hint=U3, ty=["scalar", "user:U3"], gen=USER_LEAVES["user:U3"][2], kind="scalar:user:U3", hashable=False,
+                 json_safe=False)
+        kind = self.rng.choice(["id", "list", "tuple", "dict", "model", "model"])
+        ca, cb = self.wrap(kind, a), self.wrap(kind, b)
+        sp = self.union_from(Union[ca.hint, cb.hint], [ca, cb])
+
+        def poison_gen(r):
+            flag["poison"] = True
+            try:
+                return ca.gen(r)
+            finally:
+                flag["poison"] = False
+        sp.poison_gen = poison_gen
+        return sp
+
     def gen(self, depth, hashable=False, no_union=False):
         while True:
             sp = self._gen(depth, hashable, no_union)
@@ -555,6 +612,8 @@ class TypeGen:
 
     def _gen(self, depth, hashable=False, no_union=False):
         r = self.rng.random()
+        if self.user_leaves and not hashable and self.rng.random() < 0.12:
+            return self.user_leaf()
         if depth <= 0 or r < 0.28:
             s = self.scalar()
             while hashable and not s.hashable:
@@ -617,13 +676,100 @@ def tree_spec():
 
 
 # ---------------------------------------------------------------------------------------
+# user leaves: types served by loader(U, fn) / dumper(U, fn) of the harness's own recipe. Their functions may raise
+# LoadError subclasses (a rejection) or anything else (an unexpected error that must escape in every mode).
+# In the model they are scalars `user:<name>` whose outcome rows are computed by calling the same function.
+# ---------------------------------------------------------------------------------------
+
+@dataclass(frozen=True)
+class U1:
+    v: Any
+
+
+@dataclass(frozen=True)
+class U2:
+    v: Any
+
+
+@dataclass(frozen=True)
+class U3:
+    v: Any
+
+
+def _u1_load(data):
+    """ints 0..100; a negative int is an unexpected ValueError, a big one a ValueLoadError"""
+    from adaptix.load_error import TypeLoadError, ValueLoadError
+    if type(data) is not int:
+        raise TypeLoadError(int, data)
+    if data < 0:
+        raise ValueError("negative")
+    if data > 100:
+        raise ValueLoadError("too big", data)
+    return U1(data)
+
+
+def _u2_load(data):
+    """strs; one starting with '!' is an unexpected KeyError; a list is an unexpected IndexError/TypeError"""
+    from adaptix.load_error import TypeLoadError
+    if type(data) is list:
+        return U2(data[0][0])
+    if type(data) is not str:
+        raise TypeLoadError(str, data)
+    if data.startswith("!"):
+        raise KeyError(data)
+    return U2(data)
+
+
+def _u3_load(data):
+    """anything but a dict (unexpected TypeError) and None (a rejection)"""
+    from adaptix.load_error import TypeLoadError
+    if data is None:
+        raise TypeLoadError(object, data)
+    if type(data) is dict:
+        raise TypeError("dict")
+    return U3(data)
+
+
+USER_LEAVES = {
+    "user:U1": (U1, _u1_load, lambda r: U1(r.choice([0, 1, 5, 100]))),
+    "user:U2": (U2, _u2_load, lambda r: U2(r.choice(["", "a", "xyz"]))),
+    "user:U3": (U3, _u3_load, lambda r: U3(r.choice([0, -5, "a", "!b", 500, (1, 2)]))),
+}
+
+
+def _user_dump(x):
+    return x.v
+
+
+def scalar_hint(name):
+    if name in USER_LEAVES:
+        return USER_LEAVES[name][0]
+    return X.scalar_pool()[name]
+
+
+def user_leaf_out(name, v):
+    from adaptix.load_error import LoadError
+    try:
+        return ["ok", enc(USER_LEAVES[name][1](v))]
+    except Unencodable:
+        return ["ok", ["x", "unencodable"]]
+    except LoadError as e:
+        return ["err", type(e).__name__]
+    except Exception as e:  # noqa: BLE001
+        return ["escape", X.exc_name(type(e))]
+
+
+# ---------------------------------------------------------------------------------------
 # real side
 # ---------------------------------------------------------------------------------------
 
 class Real:
     def __init__(self):
-        from adaptix import DebugTrail, Retort
-        self.retorts = {(m, s): Retort(debug_trail=getattr(DebugTrail, m), strict_coercion=s)
+        from adaptix import DebugTrail, Retort, dumper, loader
+        recipe = []
+        for cls, fn, _ in USER_LEAVES.values():
+            recipe += [loader(cls, fn), dumper(cls, _user_dump)]
+        self.retorts = {(m, s): Retort(debug_trail=getattr(DebugTrail, m), strict_coercion=s, recipe=recipe)
                         for m in MODES for s in (True, False)}
         self.table = X.closure_table()
 
@@ -708,6 +854,8 @@ def site_rows(real: Real, spec: Spec, datum, strict, cache):
             if key in cache:
                 rows.append(cache[key])
                 continue
+            if s in USER_LEAVES:
+                continue
             tc = real.table[(s, strict)]
             log, _final = X.site_outcomes(tc, materialise(v))
             outs = {}
@@ -723,6 +871,25 @@ def site_rows(real: Real, spec: Spec, datum, strict, cache):
             if len(cache) < 200000:
                 cache[key] = row
             rows.append(row)
+    return rows
+
+
+def leaf_rows(spec: Spec, datum):
+    names = [s for s in spec_scalars_deep(spec) if s in USER_LEAVES]
+    rows, seen = [], set()
+    if not names:
+        return rows
+    for v in sub_values(datum, lax_chars=True):
+        try:
+            ev = enc(v)
+        except Unencodable:
+            continue
+        for s in names:
+            key = (s, repr(ev))
+            if key in seen:
+                continue
+            seen.add(key)
+            rows.append({"scalar": s, "datum": ev, "out": user_leaf_out(s, materialise(v))})
     return rows
 
 
@@ -768,7 +935,7 @@ def dump_rows(real: Real, spec: Spec, value, cache):
                 continue
             seen.add(key)
             if key not in cache:
-                dm = r0.get_dumper(X.scalar_pool()[s])
+                dm = r0.get_dumper(scalar_hint(s))
                 try:
                     out = ["ok", enc(dm(v))]
                 except Unencodable:
@@ -824,6 +991,8 @@ def mros_json(spec: Spec):
         out[name] = [class_key(c) for c in s.cls.__mro__]
     for cls in ATOM_TEXT:
         out[X.type_name(cls)] = [X.type_name(c) for c in cls.__mro__]
+    for cls, _, _ in USER_LEAVES.values():
+        out[cls.__name__] = [class_key(c) for c in cls.__mro__]
     return out
 
 
@@ -845,6 +1014,9 @@ def supers_json(spec: Spec):
     for name, s in spec_classes_deep(spec).items():
         classes[name] = s.cls
         _KEY_CLASSES[name] = s.cls
+    for cls, _, _ in USER_LEAVES.values():
+        classes[cls.__name__] = cls
+        _KEY_CLASSES[cls.__name__] = cls
     out = {}
     for cname, c in classes.items():
         sup = []
@@ -862,7 +1034,8 @@ def supers_json(spec: Spec):
 
 def load_request(real, spec, datum, mode, strict, cache, fuel=40):
     return {"op": "load", "trail": mode, "strict": strict, "ty": spec.ty, "datum": enc(datum), "fuel": fuel,
-            "classes": classes_json(spec), "sites": site_rows(real, spec, datum, strict, cache)}
+            "classes": classes_json(spec), "sites": site_rows(real, spec, datum, strict, cache),
+            "leaves": leaf_rows(spec, datum)}
 
 
 def dump_request(real, spec, value, mode, cache, fuel=40):
@@ -878,7 +1051,7 @@ def dump_request(real, spec, value, mode, cache, fuel=40):
 def wrong_values(rng):
     return rng.choice([None, True, 0, 1, -1, 1.5, float("nan"), "", "a", "1", "abc", b"a", [], [1], ["a"], (), (1, 2),
                        {}, {"a": 1}, {1: 2}, set(), {1}, 10 ** 400, IterDatum([1, 2]), IterDatum([]), object, [[1]], {"a": {"b": 1}},
-                       decimal.Decimal("1"), "2020-01-02", "1.5", [None], "é", 2 ** 63])
+                       decimal.Decimal("1"), "2020-01-02", "1.5", [None], "é", 2 ** 63, -5, 500, "!boom"])
 
 
 def corrupt(rng, spec: Spec, value):
@@ -1070,11 +1243,14 @@ class Engine:
         self.hostile = hostile.corpus()
 
     # ---- generation ------------------------------------------------------------------
-    def gen_specs(self, n, depth):
-        tg = TypeGen(self.ctx.rng)
+    def gen_specs(self, n, depth, user_leaves=False):
+        tg = TypeGen(self.ctx.rng, user_leaves=user_leaves)
         out = []
         for i in range(n):
-            out.append(tree_spec() if i % 37 == 5 else tg.gen(depth))
+            if user_leaves and i % 9 == 4:
+                out.append(tg.unexpected_union())
+            else:
+                out.append(tree_spec() if i % 37 == 5 else tg.gen(depth))
         return out
 
     def hostile_datum(self):
@@ -1103,6 +1279,12 @@ class Engine:
             out.append(("valid", datum, x))
             for _ in range(n_corrupt):
                 out.append(("corrupt", corrupt(rng, spec, datum), x))
+        if getattr(spec, "poison_gen", None):
+            for _ in range(2):
+                x = spec.poison_gen(rng)
+                d = self.real.dump("DISABLE", True, spec.hint, x)
+                if d["r"] == "ok":
+                    out.append(("corrupt", self.real.dumper("DISABLE", True, spec.hint)(x), x))
         for _ in range(n_hostile):
             out.append(("hostile", self.hostile_datum(), None))
         return out
